@@ -147,6 +147,13 @@ class Shape(object):
                     break
                 g = g.parent
                 up += 1
+            if is_param and g is self.f and [
+                    d for d in self._defs.get(root.id, [])
+                    if not self._transparent(d, root.id)]:
+                # the parameter is rebound before it is compared: what
+                # reaches the query is no longer the caller's value
+                return 'rebound(%s)' % ','.join(sorted(
+                    self._kind(d) for d in self._defs[root.id]))
             if is_param:
                 # positional: a parameter rename does not change the shape
                 pid = '%sarg%d' % ('^' * up, g.params.index(root.id))
@@ -162,6 +169,26 @@ class Shape(object):
             return 'expr(%s,%s)' % (self.operand(e.left, depth + 1),
                                     self.operand(e.right, depth + 1))
         return 'expr'
+
+    @staticmethod
+    def _transparent(d, name):
+        """A rebinding that keeps the caller's value: a copy of the
+        parameter itself or an empty default."""
+        if isinstance(d, (ast.Dict, ast.List, ast.Set, ast.Tuple)):
+            return not (getattr(d, 'keys', None) or getattr(d, 'elts', None))
+        if isinstance(d, ast.Call) and src(d.func).rsplit('.', 1)[-1] in (
+                'deepcopy', 'copy', 'dict', 'list', 'set') and len(
+                    d.args) == 1 and src(d.args[0]) == name:
+            return True
+        if isinstance(d, ast.BoolOp) and isinstance(d.op, ast.Or) and src(
+                d.values[0]) == name:
+            return True
+        return False
+
+    def _kind(self, e):
+        if isinstance(e, ast.Call):
+            return 'call:' + src(e.func).rsplit('.', 1)[-1]
+        return type(e).__name__
 
     # -- atoms ------------------------------------------------------------------
     def atoms(self):
